@@ -280,6 +280,11 @@ pub fn run(args: Args) -> ! {
                 cfg.reorder = true;
                 cfg.sub_before_super = true;
                 cfg.budget = 40 + t.below(120);
+                if t.chance(1, 2) {
+                    // dozens of tables: beyond the small-slice thresholds of the sorting code
+                    cfg.many_sections = true;
+                    cfg.budget = 250 + t.below(250);
+                }
                 let r = gen_doc(&mut t, &cfg);
                 let mut tpaths: Vec<Vec<String>> = vec![vec![]];
                 let mut apaths: Vec<Vec<String>> = vec![];
